@@ -1,6 +1,7 @@
 SPECIFICATION Spec
 CONSTANTS
   MaxLen = 4
+  Vocab = "full"
   CheckAlpha = TRUE
 INVARIANTS BoundaryHygiene AlphaInvariance Report
 CHECK_DEADLOCK FALSE
